@@ -113,6 +113,8 @@ class CallMixin:
                     raise Unsupported("argument %s of %s: expected %s, got %s" % (n, con.qualname, ty, v.ty), node)
                 out[n] = v
             else:
+                if isinstance(v.ty, TObj):
+                    v = self.as_value(v, node)
                 out[n] = self.coerce(v, ty, node, "argument %s of %s" % (n, con.qualname))
         return out
 
